@@ -204,6 +204,10 @@ func checkRenderings(base vlib.Conf, rec *vlib.SetRecord, r *vlib.Renderings, la
 			sig := "C10:xml-disagrees-with-proto"
 			if len(ch.Replaces) > 0 {
 				sig += ":replace-operation"
+			} else if onlyCaseMembersKept(got, want) {
+				// every difference is a node inside a case of a choice nested in a case of another choice that the proto
+				// rendering deletes and the XML rendering keeps
+				sig += ":nested-case-member-not-deleted"
 			}
 			fl := vlib.Failf(sig, "applying the XML rendering (%s) and the proto rendering to the same device configuration gives different results (xml vs proto):\n  %s\nxml: %s\nproto updates=%s deletes=%s\ndevice before: %s", o, strings.Join(d, "\n  "), raw, vlib.JSON(rec.Updates), vlib.JSON(rec.Deletes), vlib.JSON(base))
 			// keep searching behind the known leaf-list replace finding: count it, skip this comparison only
@@ -265,6 +269,28 @@ func setKeys(m map[string]bool) []string {
 	}
 	sort.Strings(r)
 	return r
+}
+
+// onlyCaseMembersKept: xml (got) and proto (want) results differ only in paths that lie inside nested choice cases
+// (a case of a choice inside a case of another choice) and that the XML result still holds while the proto result
+// does not.
+func onlyCaseMembersKept(got, want vlib.Conf) bool {
+	n := 0
+	for k, v := range want {
+		if g, ok := got[k]; !ok || g != v {
+			return false
+		}
+	}
+	for k := range got {
+		if _, ok := want[k]; ok {
+			continue
+		}
+		if len(vlib.ChoiceRefs(vlib.MustCanon(k))) < 2 {
+			return false
+		}
+		n++
+	}
+	return n > 0
 }
 
 func anClass(a string) string {
